@@ -5,6 +5,7 @@
 //!   pn s h     mark_notar_fallback((s,h))          ps s     mark_skipped(s)
 //!   pp r       prune(r)   -> `root=.. pr=..`        pq s     parents_ready(s) -> `q=..`
 //!   pw s       wait_for_parent_ready(s) -> `ready b ..` | `waiting ..` | `panic`
+//!   pf f i k   handle_finalization(finalized | -, implicitly finalized | -, implicitly skipped | -)
 //! pool ops (`cc`, `cb`, `cq`, `cw`): see `trackkit.rs`.
 #[path = "../trackkit.rs"]
 mod trackkit;
@@ -32,6 +33,19 @@ fn ready_pairs(nf: &BTreeSet<B>, skip: &BTreeSet<u64>, above: u64, max_s: u64) -
             }
         }
         s += W;
+    }
+    out
+}
+
+/// the same for every window start `s >= lo` (the theorem `ready_iff` of `Props/C07.lean` includes the root itself)
+fn ready_from(nf: &BTreeSet<B>, skip: &BTreeSet<u64>, lo: u64, max_s: u64) -> BTreeSet<Ann> {
+    let mut out = ready_pairs(nf, skip, lo, max_s);
+    if lo >= W && lo % W == 0 && lo <= max_s {
+        for b in nf {
+            if b.0 < lo && (b.0 + 1..lo).all(|t| skip.contains(&t)) {
+                out.insert((lo, *b));
+            }
+        }
     }
     out
 }
@@ -112,13 +126,73 @@ struct Direct {
     max_s: u64,
     dead: bool,
     class: u64,
+    /// oracle range: window starts `>= root` (exactly the theorem) instead of `> root`
+    incl_root: bool,
 }
 
 impl Direct {
     fn new(max_s: u64) -> Self {
         let mut nf = BTreeSet::new();
         nf.insert((0, 0));
-        Self { t: VerifParentReadyTracker::default(), nf, skip: BTreeSet::new(), ann: AnnState::default(), waiters: BTreeMap::new(), max_s, dead: false, class: 0 }
+        Self { t: VerifParentReadyTracker::default(), nf, skip: BTreeSet::new(), ann: AnnState::default(), waiters: BTreeMap::new(), max_s, dead: false, class: 0, incl_root: false }
+    }
+    /// lowest window start the oracle speaks about
+    fn lo(&self) -> u64 {
+        self.t.root().inner() + if self.incl_root { 0 } else { 1 }
+    }
+    fn ready_now(&self) -> BTreeSet<Ann> {
+        ready_from(&self.nf, &self.skip, self.lo(), self.max_s)
+    }
+    /// `handle_finalization` on the real tracker (a batch: only one highest-slot pair is announced)
+    fn apply_fin(&mut self, rec: &mut Recorder, fin: Option<B>, ifin: &[B], iskip: &[u64]) {
+        if self.dead {
+            return;
+        }
+        let root = self.t.root().inner();
+        let before = self.ready_now();
+        let line = format!(
+            "pf {} {} {}",
+            fin.map(fmt_blk).unwrap_or("-".into()),
+            fmt_list(ifin.iter().map(|b| fmt_blk(*b)).collect()),
+            fmt_list(iskip.iter().map(|s| s.to_string()).collect())
+        );
+        let ev = (fin.map(bid), ifin.iter().map(|b| bid(*b)).collect::<Vec<_>>(), iskip.iter().map(|s| Slot::new(*s)).collect::<Vec<_>>());
+        match catch(|| self.t.handle_finalization(ev)) {
+            Err(msg) => {
+                rec.step(&line, "panic");
+                self.dead = true;
+                rec.oracle(false, "pr-panic", || format!("{line}: tracker panicked: {msg}"));
+            }
+            Ok(a) => {
+                let ann: Vec<Ann> = a.iter().map(|(s, b)| (s.inner(), unbid(b))).collect();
+                let wakes = poll_waiters(&mut self.waiters);
+                rec.step(&line, &format!("A={} W={} {}", fmt_ann(&ann), fmt_ann(&wakes), self.dump()));
+                self.class = fnv(self.class, &format!("f{}{}", ann.len(), wakes.len()));
+                rec.count(&format!("pr:fin-ann:{}", ann.len().min(4)));
+                for b in fin.iter().chain(ifin.iter()) {
+                    if b.0 >= root {
+                        self.nf.insert(*b);
+                    }
+                }
+                for s in iskip {
+                    if *s >= root {
+                        self.skip.insert(*s);
+                    }
+                }
+                let after = self.ready_now();
+                let newly: BTreeSet<Ann> = after.difference(&before).copied().collect();
+                rec.oracle(ann.len() <= 1, "pr-batch-announces-several", || format!("{line}: {ann:?}"));
+                // the one announced pair has the highest slot of the newly ready pairs
+                if let Some(a) = ann.first() {
+                    rec.oracle(newly.iter().all(|n| n.0 <= a.0), "pr-batch-not-highest", || format!("{line}: announced {a:?}, newly ready {newly:?}"));
+                }
+                // the announce-once / subset / waiter oracles (`batch`: dropped pairs are not demanded here, the run is
+                // not a consistent world: `decided_upto = MAX` makes every dropped pair moot)
+                let skip = self.skip.clone();
+                self.ann.check(rec, &line, &before, &after, &ann, &wakes, true, u64::MAX, &skip, &after);
+                self.check_query(rec, &line);
+            }
+        }
     }
     fn dump(&self) -> String {
         fmt_pr_states(self.t.root(), &self.t.states())
@@ -128,7 +202,8 @@ impl Direct {
             return;
         }
         let root = self.t.root().inner();
-        let before = ready_pairs(&self.nf, &self.skip, root, self.max_s);
+        let lo = self.lo();
+        let before = self.ready_now();
         match op {
             DOp::Nf(_) | DOp::Skip(_) => {
                 let line = match op {
@@ -162,7 +237,7 @@ impl Direct {
                             }
                             _ => {}
                         }
-                        let after = ready_pairs(&self.nf, &self.skip, root, self.max_s);
+                        let after = self.ready_now();
                         let skip = self.skip.clone();
                         self.ann.check(rec, &line, &before, &after, &ann, &wakes, false, 0, &skip, &after);
                         self.check_query(rec, &line);
@@ -193,7 +268,7 @@ impl Direct {
                         let b = unbid(&e.left().unwrap());
                         rec.step(&line, &format!("ready {} {}", fmt_blk(b), self.dump()));
                         rec.count("pr:wait:ready");
-                        if *s > root {
+                        if *s >= lo {
                             let min = before.iter().filter(|a| a.0 == *s).map(|a| a.1).min();
                             rec.oracle(min == Some(b), "pr-wait-returns-wrong-parent", || format!("{line}: returned {b:?}, minimal ready parent is {min:?}"));
                         }
@@ -202,7 +277,7 @@ impl Direct {
                         self.waiters.insert(*s, e.right().unwrap());
                         rec.step(&line, &format!("waiting {}", self.dump()));
                         rec.count("pr:wait:waiting");
-                        if *s > root {
+                        if *s >= lo {
                             rec.oracle(!before.iter().any(|a| a.0 == *s), "pr-wait-misses-ready-parent", || format!("{line}: waiting although ready: {before:?}"));
                             self.ann.waiting.insert(*s);
                         }
@@ -214,12 +289,13 @@ impl Direct {
     /// the query equals the property's `Ready` set for every window start above the root
     fn check_query(&self, rec: &mut Recorder, line: &str) {
         let root = self.t.root().inner();
-        let want = ready_pairs(&self.nf, &self.skip, root, self.max_s);
+        let lo = self.lo();
+        let want = self.ready_now();
         let mut got = BTreeSet::new();
         let mut dup = false;
         let mut s = W;
         while s <= self.max_s {
-            if s > root {
+            if s >= lo {
                 for b in self.t.parents_ready(Slot::new(s)) {
                     dup |= !got.insert((s, unbid(&b)));
                 }
@@ -436,6 +512,132 @@ fn main() {
         rec.oracle(finals.len() == 1, "pr-order-dependent", || format!("marks {marks:?}: final ready sets differ between orders: {finals:?}"));
     }
 
+    // ---- shape pr-safe: random runs under exactly the premise `SafeRun` of the Lean theorems (`Props/C07.lean`):
+    // prune roots monotone; a prune root is a window start or is never accepted as a skip mark, before or after.
+    // Nothing else is assumed (the prefix below a root need not be decided, marks arrive in any order, finalization
+    // batches are arbitrary).  Oracle: the query is exact for every window start >= root (root included), every pair
+    // announced at most once, certificate paths announce exactly the newly ready pairs, no panic.
+    let n_safe = if args.thorough { 60000 } else { 8000 };
+    for _ in 0..n_safe {
+        rec.begin_case("pr-safe");
+        let max_slot = 15u64;
+        let mut d = Direct::new(max_slot + 1);
+        d.incl_root = true;
+        let len = rng.range(8, 32);
+        let mut never_skip: BTreeSet<u64> = BTreeSet::new();
+        for _ in 0..len {
+            let root = d.t.root().inner();
+            let skip_ok = |s: u64, root: u64, never_skip: &BTreeSet<u64>| s < root || !never_skip.contains(&s);
+            match rng.below(14) {
+                0..=2 => d.apply(&mut rec, &DOp::Nf((rng.range(0, max_slot), rng.range(0, 2))), false),
+                3..=7 => {
+                    let s = rng.range(root.saturating_sub(1), (root + 6).min(max_slot));
+                    if !skip_ok(s, root, &never_skip) { continue; }
+                    d.apply(&mut rec, &DOp::Skip(s), false)
+                }
+                8 => d.apply(&mut rec, &DOp::Query(W * rng.range(0, 4)), false),
+                9 => {
+                    let s = W * rng.range(1, 4);
+                    if d.waiters.contains_key(&s) || d.ann.waiting.contains(&s) { continue; }
+                    // a second waiter for a slot is an assertion failure of the code (documented): wait once per slot
+                    if d.t.states().iter().any(|e| e.0.inner() == s && e.4) { continue; }
+                    d.apply(&mut rec, &DOp::Wait(s), false)
+                }
+                10 | 11 => {
+                    let r = rng.range(root, (root + 6).min(max_slot));
+                    if r % W != 0 && d.skip.contains(&r) { continue; }
+                    if r % W != 0 { never_skip.insert(r); }
+                    d.apply(&mut rec, &DOp::Prune(r), false)
+                }
+                _ => {
+                    let fin = if rng.chance(2, 3) { Some((rng.range(0, max_slot), rng.range(0, 2))) } else { None };
+                    let mut ifin = Vec::new();
+                    for _ in 0..rng.below(3) { ifin.push((rng.range(0, max_slot), rng.range(0, 2))); }
+                    let mut iskip = Vec::new();
+                    for _ in 0..rng.below(4) {
+                        let s = rng.range(root.saturating_sub(1), (root + 6).min(max_slot));
+                        if skip_ok(s, root, &never_skip) { iskip.push(s); }
+                    }
+                    d.apply_fin(&mut rec, fin, &ifin, &iskip)
+                }
+            }
+        }
+        let nontrivial = !d.ann.announced.is_empty();
+        rec.end_case(d.class ^ d.ann.announced.len() as u64, nontrivial);
+    }
+
+    // ---- shape pr-witness: the `decide`d witnesses of `Props/C07.lean` on the real tracker (the premise `SafeRun` is
+    // necessary; the non-vacuity run).  Each step is compared with the model; the oracle compares the marked steps
+    // with the value the Lean theorem states.
+    {
+        let witnesses: Vec<(&str, Vec<(&str, Option<&str>)>)> = vec![
+            // ready_iff_fails_if_skipped_slot_becomes_root: (1,7) is connected to 4 by the accepted marks, the query is empty
+            ("skipped-slot-becomes-root", vec![("pn 1 7", None), ("ps 2", None), ("pp 2", None), ("ps 3", Some("A=- ")), ("pq 4", Some("q=-"))]),
+            // ready_iff_fails_if_root_is_skipped_later
+            ("root-skipped-later", vec![("pn 1 7", None), ("pp 2", None), ("ps 2", None), ("ps 3", Some("A=- ")), ("pq 4", Some("q=-"))]),
+            // panic_if_prune_roots_decrease: `assert!(!ready_ids.contains(&id))`
+            ("roots-decrease-panic", vec![("pn 3 9", Some("A=4=3:9 ")), ("pp 4", None), ("pp 0", None), ("pn 3 9", Some("panic"))]),
+            // ready_iff_fails_if_prune_roots_decrease
+            ("roots-decrease-query", vec![("pn 1 7", None), ("ps 2", None), ("ps 3", Some("A=4=1:7 ")), ("pp 8", None), ("pp 0", None), ("pq 4", Some("q=-"))]),
+            // a skip-marked window start may be a root
+            ("window-start-root", vec![("pn 3 9", Some("A=4=3:9 ")), ("ps 4", Some("A=- ")), ("pp 4", None), ("ps 5", None), ("ps 6", None), ("ps 7", Some("A=8=3:9 ")), ("pq 8", Some("q=3:9"))]),
+            // demoRun
+            ("demo-run", vec![("pn 1 7", None), ("ps 2", None), ("pw 4", Some("waiting ")), ("ps 3", Some("A=4=1:7 W=4=1:7 ")), ("pw 8", Some("waiting ")),
+                ("pn 5 3", None), ("pp 5", None), ("ps 4", Some("A=- ")), ("ps 7", None), ("ps 6", Some("A=8=5:3 W=8=5:3 ")), ("pn 5 2", Some("A=8=5:2 W=- ")),
+                ("pf 9:1 8:6 -", Some("A=- ")), ("ps 11", None), ("ps 10", Some("A=12=9:1 ")), ("pw 12", Some("ready 9:1 ")), ("pp 9", None), ("ps 8", Some("A=- ")),
+                ("pn 9 4", Some("A=12=9:4 ")), ("pq 12", Some("q=9:1,9:4"))]),
+        ];
+        for (name, steps) in &witnesses {
+            rec.begin_case("pr-witness");
+            let mut t = VerifParentReadyTracker::default();
+            let mut waiters: BTreeMap<u64, tokio::sync::oneshot::Receiver<alpenglow::BlockId>> = BTreeMap::new();
+            let mut dead = false;
+            for (line, expect) in steps {
+                if dead { break; }
+                let w: Vec<&str> = line.split(' ').collect();
+                let num = |x: &str| x.parse::<u64>().expect("number");
+                let blk = |x: &str| { let p: Vec<&str> = x.split(':').collect(); (num(p[0]), num(p[1])) };
+                let dump = |t: &VerifParentReadyTracker| fmt_pr_states(t.root(), &t.states());
+                let out = match w[0] {
+                    "pn" | "ps" | "pf" => {
+                        let r = catch(|| match w[0] {
+                            "pn" => t.mark_notar_fallback(&bid((num(w[1]), num(w[2])))),
+                            "ps" => t.mark_skipped(Slot::new(num(w[1]))),
+                            _ => {
+                                let f = if w[1] == "-" { None } else { Some(bid(blk(w[1]))) };
+                                let i = if w[2] == "-" { vec![] } else { w[2].split(',').map(|x| bid(blk(x))).collect() };
+                                let k = if w[3] == "-" { vec![] } else { w[3].split(',').map(|x| Slot::new(num(x))).collect() };
+                                t.handle_finalization((f, i, k))
+                            }
+                        });
+                        match r {
+                            Err(_) => { dead = true; "panic".to_string() }
+                            Ok(a) => {
+                                let ann: Vec<Ann> = a.iter().map(|(s, b)| (s.inner(), unbid(b))).collect();
+                                let wakes = poll_waiters(&mut waiters);
+                                format!("A={} W={} {}", fmt_ann(&ann), fmt_ann(&wakes), dump(&t))
+                            }
+                        }
+                    }
+                    "pp" => { t.prune(Slot::new(num(w[1]))); dump(&t) }
+                    "pq" => format!("q={}", fmt_list(t.parents_ready(Slot::new(num(w[1]))).iter().map(|b| fmt_blk(unbid(b))).collect())),
+                    "pw" => match catch(|| t.wait_for_parent_ready(Slot::new(num(w[1])))) {
+                        Err(_) => { dead = true; "panic".to_string() }
+                        Ok(e) if e.is_left() => format!("ready {} {}", fmt_blk(unbid(&e.left().unwrap())), dump(&t)),
+                        Ok(e) => { waiters.insert(num(w[1]), e.right().unwrap()); format!("waiting {}", dump(&t)) }
+                    },
+                    _ => unreachable!(),
+                };
+                rec.step(line, &out);
+                if let Some(want) = expect {
+                    rec.oracle(out.starts_with(want), "pr-witness-differs", || format!("witness {name}, step `{line}`: the real tracker answers `{out}`, the Lean witness theorem states `{want}..`"));
+                }
+            }
+            rec.count(&format!("pr:witness:{name}"));
+            rec.end_case(fnv(0, name), true);
+        }
+    }
+
     // ---- shape pool-world: certificates and blocks through a real PoolImpl, finalization-driven pruning
     let rt = tokio::runtime::Builder::new_current_thread().build().expect("runtime");
     let mut factory = CertFactory::new();
@@ -475,5 +677,5 @@ fn main() {
         rec.end_case(r.class, !r.all_ann.is_empty());
     }
 
-    rec.finish(&args, serde_json::json!({ "direct": n_direct, "perm_sets": n_sets, "pool_worlds": n_pool }));
+    rec.finish(&args, serde_json::json!({ "direct": n_direct, "safe": n_safe, "witnesses": 6, "perm_sets": n_sets, "pool_worlds": n_pool }));
 }
